@@ -149,6 +149,200 @@ theorem rt_val (tbl : Table) (bad : List Nat) (hg : tableGood tbl bad = true) (v
     (fun _ sid hw => by simp [wtObj] at hw) (fun _ ih => rt_obj hg ih)
     (rt_nil tbl bad) (fun _ _ ihv ihs => rt_cons ihv ihs) v
 
+-- ------------------------------------------------------------------------------------------------ decoding is well-typed
+theorem required_mem {sch : Schema} {q : PFields} (h : requiredPresent sch q = true) :
+    ∀ f ∈ sch, f.fwd = .always → (plookup q f.source).isSome = true := by
+  intro f hf ha
+  simp only [requiredPresent, List.all_eq_true] at h
+  have := h f hf
+  simpa [ha] using this
+
+theorem ds_wt {tbl : Table} {bad : List Nat} {p : PFields} : (fs : Schema) →
+    (∀ f ∈ fs, wtField tbl bad f (decodeField tbl f p) = true) →
+    wtFields tbl bad fs (decodeSchema tbl fs p) = true
+  | [], _ => by simp [decodeSchema, wtFields]
+  | f :: fs, h => by
+    rw [decodeSchema, wtFields_cons, Bool.and_eq_true]
+    exact ⟨h f (List.mem_cons_self ..), ds_wt fs (fun g hg => h g (List.mem_cons_of_mem _ hg))⟩
+
+def DwVal (tbl : Table) (bad : List Nat) (v : PVal) : Prop :=
+  ∀ f, FieldOK f → pwtVal tbl bad f v = true → wtField tbl bad f (decodeVal tbl f v) = true
+
+def DwFields (tbl : Table) (bad : List Nat) (p : PFields) : Prop :=
+  ∀ sch, SchOK sch → pwtFields tbl bad sch p = true → ∀ f ∈ sch,
+    (f.fwd = .always → (plookup p f.source).isSome = true) → wtField tbl bad f (decodeField tbl f p) = true
+
+theorem dw_scalar (tbl : Table) (bad : List Nat) (n : Nat) : DwVal tbl bad (.scalar n) := by
+  intro f hf hp
+  simp only [pwtVal, beq_iff_eq] at hp
+  simp [decodeVal, hf.bwd_ne_truthy, wtField, hp]
+
+theorem dw_list (tbl : Table) (bad : List Nat) (xs : List Nat) : DwVal tbl bad (.list xs) := by
+  intro f hf hp
+  simp only [pwtVal, Bool.and_eq_true, beq_iff_eq] at hp
+  simp [decodeVal, wtField, hp.1]
+
+theorem dw_msg {tbl : Table} {bad : List Nat} (hg : tableGood tbl bad = true) {q : PFields}
+    (ih : DwFields tbl bad q) : DwVal tbl bad (.msg q) := by
+  intro f hf hp
+  cases hk : f.kind with
+  | scalar => simp [pwtVal, hk] at hp
+  | list => simp [pwtVal, hk] at hp
+  | sub sid =>
+    simp only [pwtVal, hk, Bool.and_eq_true, Bool.not_eq_true', decide_eq_true_eq] at hp
+    obtain ⟨⟨⟨hb, hlt⟩, hq⟩, hr⟩ := hp
+    have hs := tableGood_sch hg hb hlt
+    have h := ds_wt (tbl := tbl) (bad := bad) (p := q) (tbl.getD sid [])
+      (fun g hgm => ih _ hs hq g hgm (required_mem hr g hgm))
+    simp only [decodeVal, hk, wtField, wtObj, Bool.and_eq_true, Bool.not_eq_true', decide_eq_true_eq]
+    exact ⟨⟨hb, hlt⟩, h⟩
+
+theorem dw_nil (tbl : Table) (bad : List Nat) : DwFields tbl bad .nil := by
+  intro sch hs _ f hfm hreq
+  have hf := hs.fields f hfm
+  rcases hf.rules with ⟨h1, h2⟩ | ⟨h1, h2⟩
+  · simp [plookup] at hreq
+    exact absurd h1 hreq
+  · cases hk : f.kind <;> simp [decodeField, h1, h2, hk, wtField]
+
+theorem dw_cons {tbl : Table} {bad : List Nat} {k : Nat} {v : PVal} {rest : PFields}
+    (ihv : DwVal tbl bad v) (ihr : DwFields tbl bad rest) : DwFields tbl bad (.cons k v rest) := by
+  intro sch hs hp f hfm hreq
+  have hf := hs.fields f hfm
+  simp only [pwtFields, Bool.and_eq_true] at hp
+  obtain ⟨⟨hv, _⟩, hrest⟩ := hp
+  by_cases h : k = f.source
+  · subst h
+    rw [hs.find_source hfm] at hv
+    simp only [decodeField, if_neg hf.bwd_ne_never, if_true]
+    exact ihv f hf hv
+  · simp only [decodeField, if_neg hf.bwd_ne_never, if_neg h]
+    refine ihr sch hs hrest f hfm (fun ha => ?_)
+    have := hreq ha
+    simpa [plookup, h] using this
+
+theorem dw_fields (tbl : Table) (bad : List Nat) (hg : tableGood tbl bad = true) (p : PFields) : DwFields tbl bad p :=
+  PFields.rec (motive_1 := DwVal tbl bad) (motive_2 := DwFields tbl bad)
+    (dw_scalar tbl bad) (dw_list tbl bad) (fun _ ih => dw_msg hg ih)
+    (dw_nil tbl bad) (fun _ _ _ ihv ihr => dw_cons ihv ihr) p
+
+-- ------------------------------------------------------------------------------------------------ presence
+theorem pwt_lookup {tbl : Table} {bad : List Nat} {sch : Schema} (hs : SchOK sch) {f : Field} (hfm : f ∈ sch)
+    {w : PVal} : (p : PFields) → pwtFields tbl bad sch p = true → plookup p f.source = some w →
+    pwtVal tbl bad f w = true
+  | .nil, _, hl => by simp [plookup] at hl
+  | .cons k v rest, hp, hl => by
+    simp only [pwtFields, Bool.and_eq_true] at hp
+    obtain ⟨⟨hv, _⟩, hrest⟩ := hp
+    by_cases h : k = f.source
+    · subst h
+      rw [hs.find_source hfm] at hv
+      simp only [plookup, if_true, Option.some.injEq] at hl
+      subst hl
+      exact hv
+    · simp only [plookup, if_neg h] at hl
+      exact pwt_lookup hs hfm rest hrest hl
+
+theorem pwt_lookup_mem {tbl : Table} {bad : List Nat} {sch : Schema} {j : Nat} :
+    (p : PFields) → pwtFields tbl bad sch p = true → (plookup p j).isSome = true → ∃ f ∈ sch, f.source = j
+  | .nil, _, hl => by simp [plookup] at hl
+  | .cons k v rest, hp, hl => by
+    simp only [pwtFields, Bool.and_eq_true] at hp
+    obtain ⟨⟨hv, _⟩, hrest⟩ := hp
+    by_cases h : k = j
+    · subst h
+      cases hfind : sch.find? (fun f => f.source == k) with
+      | none => simp [hfind] at hv
+      | some f =>
+        have h1 := List.mem_of_find?_eq_some hfind
+        have h2 := List.find?_some hfind
+        exact ⟨f, h1, by simpa using h2⟩
+    · simp only [plookup, if_neg h] at hl
+      exact pwt_lookup_mem rest hrest hl
+
+theorem bool_skip : ∀ (A S P T : Bool), (T && P) = false → (A || (S && P)) = (A || ((T || S) && P)) := by decide
+
+theorem bool_write : ∀ (A S P T : Bool), (T && P) = T →
+    ((T || A) || (S && P)) = (A || ((T || S) && P)) := by decide
+
+/-- re-encoding the decoded fields `fs` writes exactly the numbers of `fs` that the original payload has -/
+theorem enc_presence {tbl : Table} {bad : List Nat} {sch : Schema} (hs : SchOK sch) {p : PFields}
+    (hp : pwtFields tbl bad sch p = true) (hr : requiredPresent sch p = true) (p' : PFields) (k : Nat)
+    (fs : Schema) : (∀ f ∈ fs, f ∈ sch) → ∀ (acc : PFields),
+    encodeFields tbl fs (decodeSchema tbl fs p) acc = some p' →
+    (plookup p' k).isSome =
+      ((plookup acc k).isSome || (fs.any (fun f => f.target == k) && (plookup p k).isSome)) := by
+  induction fs with
+  | nil =>
+    intro _ acc he
+    simp only [decodeSchema, encodeFields, Option.some.injEq] at he
+    subst he
+    simp
+  | cons f fs ih0 =>
+    intro hsub acc he
+    have hfm := hsub f (List.mem_cons_self ..)
+    have hf := hs.fields f hfm
+    have ih := ih0 (fun g hg => hsub g (List.mem_cons_of_mem _ hg))
+    rw [decodeSchema, decodeField_eq, if_neg hf.bwd_ne_never] at he
+    cases hl : plookup p f.source with
+    | none =>
+      have hna : f.fwd ≠ .always := fun ha => by
+        have := required_mem hr f hfm ha
+        simp [hl] at this
+      have hnb : f.bwd ≠ .always := fun e => hna (hf.bwd_always.mp e)
+      have hk : (f.target == k && (plookup p k).isSome) = false := by
+        by_cases e : f.target = k
+        · rw [← e, hf.ts, hl]; simp
+        · simp [e]
+      have he' : encodeFields tbl fs (decodeSchema tbl fs p) acc = some p' := by
+        rw [hl] at he
+        dsimp only at he
+        by_cases hkl : f.kind = .list
+        · rw [if_pos hkl] at he
+          simpa [encodeFields, hf.raises] using he
+        · rw [if_neg hkl, if_neg hnb] at he
+          simpa [encodeFields, hna] using he
+      rw [ih acc he', List.any_cons]
+      exact bool_skip _ _ _ _ hk
+    | some w =>
+      have hw := pwt_lookup hs hfm p hp hl
+      have hk : (f.target == k && (plookup p k).isSome) = (f.target == k) := by
+        by_cases e : f.target = k
+        · rw [← e, hf.ts, hl]; simp
+        · simp [e]
+      have fin : ∀ pv, encodeFields tbl fs (decodeSchema tbl fs p) (pset acc f.target pv) = some p' →
+          (plookup p' k).isSome =
+            ((plookup acc k).isSome || ((f :: fs).any (fun f => f.target == k) && (plookup p k).isSome)) := by
+        intro pv he'
+        rw [ih _ he', plookup_pset_isSome, List.any_cons]
+        exact bool_write _ _ _ _ hk
+      rw [hl] at he
+      dsimp only at he
+      cases w with
+      | scalar n =>
+        have hd : decodeVal tbl f (.scalar n) = .scalar n := by simp [decodeVal, hf.bwd_ne_truthy]
+        rw [hd] at he
+        apply fin (.scalar n)
+        simpa [encodeFields, hf.raises, hf.fwd_ne_never, hf.fwd_ne_truthy] using he
+      | list xs =>
+        simp only [pwtVal, Bool.and_eq_true, beq_iff_eq, Bool.not_eq_true', List.isEmpty_eq_false_iff] at hw
+        have hd : decodeVal tbl f (.list xs) = .list xs := by simp [decodeVal]
+        rw [hd] at he
+        apply fin (.list xs)
+        simpa [encodeFields, hf.raises, hf.fwd_ne_never, hw.2] using he
+      | msg q =>
+        cases hkind : f.kind with
+        | scalar => simp [pwtVal, hkind] at hw
+        | list => simp [pwtVal, hkind] at hw
+        | sub sid' =>
+          have hd : decodeVal tbl f (.msg q) = .obj (decodeSchema tbl (tbl.getD sid' []) q) := by
+            simp only [decodeVal, hkind]
+          rw [hd] at he
+          simp [encodeFields, hf.raises, hf.fwd_ne_never, hkind] at he
+          split at he
+          · cases he
+          · exact fin _ he
+
 /-- serialising what the application composed and parsing it back yields the same content: every field with the
     value it was given, unset fields unset — for all values, all optional-field subsets, any nesting depth -/
 theorem roundtrip (tbl : Table) (bad : List Nat) (hg : tableGood tbl bad = true) (sid : Nat) (v : Val)
@@ -160,7 +354,13 @@ theorem roundtrip (tbl : Table) (bad : List Nat) (hg : tableGood tbl bad = true)
 theorem decode_wt (tbl : Table) (bad : List Nat) (hg : tableGood tbl bad = true) (sid : Nat) (p : PFields)
     (hp : pwtObj tbl bad sid p = true) :
     wtObj tbl bad sid (decodeObj tbl sid p) = true := by
-  sorry
+  simp only [pwtObj, Bool.and_eq_true, Bool.not_eq_true', decide_eq_true_eq] at hp
+  obtain ⟨⟨⟨hb, hlt⟩, hq⟩, hr⟩ := hp
+  have hs := tableGood_sch hg hb hlt
+  have h := ds_wt (tbl := tbl) (bad := bad) (p := p) (tbl.getD sid [])
+    (fun g hgm => dw_fields tbl bad hg p _ hs hq g hgm (required_mem hr g hgm))
+  simp only [decodeObj, wtObj, Bool.and_eq_true, Bool.not_eq_true', decide_eq_true_eq]
+  exact ⟨⟨hb, hlt⟩, h⟩
 
 /-- … so re-serialising a received payload changes no field the library models: parsing the re-serialised payload
     gives exactly what parsing the original gave -/
@@ -174,7 +374,19 @@ theorem reserialise (tbl : Table) (bad : List Nat) (hg : tableGood tbl bad = tru
 theorem reserialise_presence (tbl : Table) (bad : List Nat) (hg : tableGood tbl bad = true) (sid : Nat) (p : PFields)
     (hp : pwtObj tbl bad sid p = true) :
     ∀ p', encodeObj tbl sid (decodeObj tbl sid p) = some p' → ∀ k, (plookup p' k).isSome = (plookup p k).isSome := by
-  sorry
+  intro p' he k
+  simp only [pwtObj, Bool.and_eq_true, Bool.not_eq_true', decide_eq_true_eq] at hp
+  obtain ⟨⟨⟨hb, hlt⟩, hq⟩, hr⟩ := hp
+  have hs := tableGood_sch hg hb hlt
+  rw [decodeObj, encodeObj] at he
+  rw [enc_presence hs hq hr p' k (tbl.getD sid []) (fun _ h => h) .nil he]
+  cases hl : (plookup p k).isSome with
+  | false => simp [plookup]
+  | true =>
+    obtain ⟨f, hfm, hfs⟩ := pwt_lookup_mem p hq hl
+    have : (tbl.getD sid []).any (fun f => f.target == k) = true :=
+      List.any_eq_true.mpr ⟨f, hfm, by simp [(hs.fields f hfm).ts, hfs]⟩
+    rw [this]; simp [plookup]
 
 /-- sensitivity witnesses (concrete evaluations) -/
 theorem bad_rules_lose_values :
@@ -182,6 +394,7 @@ theorem bad_rules_lose_values :
      (encodeObj [[f]] 0 (.obj (.cons (.scalar 0) .nil))).map (decodeObj [[f]] 0) = some (.obj (.cons .none .nil))) ∧
     (let f : Field := { kind := .scalar, fwd := .notNone, bwd := .always, target := 1, source := 1, raises := false }
      (encodeObj [[f]] 0 (.obj (.cons .none .nil))).map (decodeObj [[f]] 0) = some (.obj (.cons (.scalar 0) .nil))) := by
-  sorry
+  constructor <;>
+    simp [encodeObj, encodeFields, decodeObj, decodeSchema, decodeField, defaultOf]
 
 end Yow.Payload
